@@ -87,4 +87,84 @@ func RecvQueuedFull
   loop 0 invariant chhead(ch) == old(chhead(ch)) + index && chtail(ch) == old(chtail(ch)) && chclosed(ch) == old(chclosed(ch))
   loop 0 invariant forall i :: 0 <= i && i < index ==> buf[i] == old(chat(ch, chhead(ch) + i))
   loop 0 invariant forall i :: index <= i && i < len(buf) ==> buf[i] == old(buf[i])
+
+// ---------------------------------------------------------------- C10: PubSub
+// Lock discipline (see /verif/DESIGN.md 6.4, engine/locks.go): o.mutex guards o.subs and every backing array that
+// existed before the call; the configuration fields are immutable after the PubSub is shared. The lock invariant
+// `live` says: every subscribed channel is non-nil, open, owned by this PubSub (ghost chowner, set where Sub/SubBuf
+// make the channel) and listed once. While the lock is held (R or W) nobody else can close an owned channel
+// (every close in this file is proved to happen under the owner's write lock: obligation close-protected).
+
+spec live(s []E, owner int) bool = (forall i :: {s[i]} 0 <= i && i < len(s) ==> ref(s[i]) != 0 && !chclosed(s[i]) && chowner(s[i]) == owner) && (forall i, j :: {s[i], s[j]} 0 <= i && i < j && j < len(s) ==> ref(s[i]) != ref(s[j]))
+
+// send: called with the read (or write) lock held, on a live subscriber channel. Exactly one of: the event is handed
+// to sub (one send action carrying ev), or - only with a positive timeout - it is not and onTimeout(ev) is called
+// exactly once (when there is a callback). Never sends twice, never to another channel, never closes, and cannot
+// panic: the channel is open and stays open while the lock is held.
+func PubSub.send
+  property C10
+  mode atomic
+  opt lock o.mutex
+  opt entryheld R
+  opt inlinecalls SendTimeout
+  requires o != nil && ref(sub) != 0 && !chclosed(sub) && chowner(sub) == ref(o)
+  exit_ensures[one-outcome] (nacts(K_ChanSend, sub) == 1 && loglen(onTimeout) == 0) || (nacts(K_ChanSend, sub) == 0 && timeout > 0 && (onTimeout != nil ==> loglen(onTimeout) == 1 && logarg(onTimeout, 0, 0) == ev) && (onTimeout == nil ==> loglen(onTimeout) == 0))
+  exit_ensures[value]       nacts(K_ChanSend, sub) == 1 ==> actval(K_ChanSend, sub) == ev
+  exit_ensures[only-sub]    nacts(K_ChanSend) == nacts(K_ChanSend, sub) && nacts(K_ChanClose) == 0 && nacts(K_ChanRecv, sub) == 0
+  exit_ensures[no-timeout]  timeout <= 0 ==> nacts(K_ChanSend, sub) == 1
+  assigns chans
+
+// sendWaitGroup: one send, then exactly one Done on wg as the last action.
+func PubSub.sendWaitGroup
+  property C10
+  mode atomic
+  opt lock o.mutex
+  opt entryheld R
+  opt logcalls send
+  requires o != nil && wg != nil && ref(sub) != 0 && !chclosed(sub) && chowner(sub) == ref(o)
+  exit_ensures[one-send] loglen(send) == 1 && logarg(send, 1, 0) == ev && logarg(send, 2, 0) == sub && logarg(send, 3, 0) == timeout
+  exit_ensures[done]     nacts(K_WGDone) == 1 && nacts(K_WGDone, wg) == 1 && actkind(nact - 1) == K_WGDone
+  assigns chans
+
+// The synchronous publishers: under the read lock, exactly one send call per subscribed channel, in subscription
+// order, carrying the event (PubSliceSync: events in slice order, each to every subscriber before the next event);
+// returns only after the last send call has returned. With send's contract: every (event, subscriber) pair ends in
+// exactly one delivery or one OnPubTimeout call, deliveries to one subscriber are in publication order.
+func PubSub.PubSync
+  property C10
+  mode atomic
+  opt lock o.mutex
+  opt guarded subs
+  opt immutable PubSub.OnPubTimeout PubSub.PubTimeoutAfter PubSub.DefaultBuffer
+  opt logcalls send
+  lockinv live(o.subs, ref(o))
+  requires o != nil
+  exit_ensures[fanout] loglen(send) == len(o.subs)
+  exit_ensures[each]   forall k :: {logarg(send, 2, k)} 0 <= k && k < len(o.subs) ==> logarg(send, 2, k) == o.subs[k] && logarg(send, 1, k) == ev && logarg(send, 0, k) == o && logarg(send, 3, k) == o.PubTimeoutAfter && logarg(send, 4, k) == o.OnPubTimeout
+  exit_ensures[locks]  actkind(0) == K_RLock && actkind(nact - 1) == K_RUnlock
+  loop 0 invariant -1 <= rangeindex && rangeindex < len(o.subs) && loglen(send) == rangeindex + 1
+  loop 0 invariant forall k :: {logarg(send, 2, k)} 0 <= k && k <= rangeindex ==> logarg(send, 2, k) == o.subs[k] && logarg(send, 1, k) == ev && logarg(send, 0, k) == o && logarg(send, 3, k) == o.PubTimeoutAfter && logarg(send, 4, k) == o.OnPubTimeout
+  loop 0 invariant live(o.subs, ref(o))
+
+// PubSliceSync: call number j*n+i (n = number of subscribers) is send(evs[j], subs[i]): every (event, subscriber)
+// pair exactly once, events in slice order for every subscriber.
+func PubSub.PubSliceSync
+  property C10
+  mode atomic
+  opt lock o.mutex
+  opt guarded subs
+  opt immutable PubSub.OnPubTimeout PubSub.PubTimeoutAfter PubSub.DefaultBuffer
+  opt logcalls send
+  opt nla uf
+  lockinv live(o.subs, ref(o))
+  requires o != nil
+  exit_ensures[fanout] loglen(send) == len(evs) * len(o.subs)
+  exit_ensures[each]   forall j, i :: {logarg(send, 2, j * len(o.subs) + i)} 0 <= j && j < len(evs) && 0 <= i && i < len(o.subs) ==> logarg(send, 2, j * len(o.subs) + i) == o.subs[i] && logarg(send, 1, j * len(o.subs) + i) == evs[j] && logarg(send, 0, j * len(o.subs) + i) == o
+  exit_ensures[locks]  actkind(0) == K_RLock && actkind(nact - 1) == K_RUnlock
+  loop 0 invariant -1 <= rangeindex_0 && rangeindex_0 < len(evs) && loglen(send) == (rangeindex_0 + 1) * len(o.subs)
+  loop 0 invariant forall j, i :: {logarg(send, 2, j * len(o.subs) + i)} 0 <= j && j <= rangeindex_0 && 0 <= i && i < len(o.subs) ==> logarg(send, 2, j * len(o.subs) + i) == o.subs[i] && logarg(send, 1, j * len(o.subs) + i) == evs[j] && logarg(send, 0, j * len(o.subs) + i) == o
+  loop 0 invariant live(o.subs, ref(o))
+  loop 1 invariant -1 <= rangeindex_0 && rangeindex_0 + 1 < len(evs) && -1 <= rangeindex_1 && rangeindex_1 < len(o.subs) && loglen(send) == (rangeindex_0 + 1) * len(o.subs) + rangeindex_1 + 1
+  loop 1 invariant forall j, i :: {logarg(send, 2, j * len(o.subs) + i)} 0 <= j && 0 <= i && i < len(o.subs) && (j <= rangeindex_0 || (j == rangeindex_0 + 1 && i <= rangeindex_1)) ==> logarg(send, 2, j * len(o.subs) + i) == o.subs[i] && logarg(send, 1, j * len(o.subs) + i) == evs[j] && logarg(send, 0, j * len(o.subs) + i) == o
+  loop 1 invariant live(o.subs, ref(o))
 @*/
